@@ -103,7 +103,7 @@ def gen_case(seed, tier):
                 }
             )
     cfg = {"relativize": rng.random() < 0.5, "load_replacement": rng.random() < 0.7, "nested": nested_ok, "load_text_no_origin": rng.random() < 0.15}
-    return {"prop": PROP, "seed": seed, "cfg": cfg, "base": base, "steps": steps}
+    return {"prop": PROP, "seed": seed, "cfg": cfg, "base": base, "steps": steps, "btree_t": rng.choice([3, 3, 4, 127])}
 
 
 # ---------------------------------------------------------------------------
@@ -362,6 +362,8 @@ class _World:
 def run_case(case, keep_log=False):
     res = RunResult()
     log = EventLog(keep=keep_log)
+    if Z.set_btree_branching(case.get("btree_t")) < 127:
+        res.faults.inc("btree_branching_factor_lowered")
     try:
         w = _World(case, res, log)
         for i, st in enumerate(case["steps"]):
